@@ -238,8 +238,8 @@ theorem serve_eq (c : AConn) (b : Int) :
       else
         let R := rrNew (c.out.filter fun r => b ≤ r.1 && r.1 ≤ sysMaxsize) b
         let J1 := c.out.filter (fun r => r.1 < b) ++ R.1
-        if R.2.2 < c.o then
-          ({ c with out := J1 ++ [(R.2.2, none)] }, R.2.1 ++ [⟨R.2.2, .gapFill c.o⟩])
+        if R.2.2 < min (sysMaxsize + 1) c.o then
+          ({ c with out := J1 ++ [(R.2.2, none)] }, R.2.1 ++ [⟨R.2.2, .gapFill (min (sysMaxsize + 1) c.o)⟩])
         else ({ c with out := J1 }, R.2.1) := by
   unfold AConn.serve
   by_cases h : b < 1 ∨ b ≥ c.o
@@ -260,6 +260,8 @@ theorem serve_o (c : AConn) (b : Int) : (c.serve b).1.o = c.o := by
 theorem sendStep_serve (c : AConn) (b : Int) (hk : keysOK c.o c.out) (hmax : c.o ≤ sysMaxsize + 1) :
     SendStep c.o c.out (c.serve b).1.o (c.serve b).1.out (c.serve b).2 [] := by
   rw [serve_eq]
+  have hm : min (sysMaxsize + 1) c.o = c.o := Int.min_eq_right hmax
+  simp only [hm]
   by_cases hb : b < 1 ∨ b ≥ c.o
   · simp only [hb, if_true]
     exact SendStep.refl hk
